@@ -830,7 +830,7 @@ def run_case(e, T, v, path, variant, cache, after_write=None):
                 events.listen(on_updated, cls, events.RowUpdatedSignal, weak=False)
                 try:
                     try:
-                        if _rowid[0] % 2:
+                        if ((_rowid[0] * 2654435761) >> 9) & 3:       # attribute assignment 3 times in 4, set() otherwise
                             setattr(obj, a, v)
                         else:
                             obj.set(**{a: v})
